@@ -78,6 +78,9 @@ pub struct StoreCfg {
     pub dead_bytes: u64,
     pub small_file: u64,
     pub sync_always: bool,
+    /// interval sync with this period (0 = off; `sync_always` wins)
+    #[serde(default)]
+    pub sync_interval_ms: u64,
 }
 
 impl StoreCfg {
@@ -221,6 +224,7 @@ pub fn cfg_strategy() -> BoxedStrategy<StoreCfg> {
             dead_bytes,
             small_file,
             sync_always: false,
+            sync_interval_ms: 0,
         })
         .boxed()
 }
